@@ -253,6 +253,61 @@ def stale_pending_entries(rib):
         return -1
 
 
+def rep_invariant(rib):
+    """Representation invariant I of OutgoingRIB's pending structures (read from the private dicts; used by the
+    inductive-step units).  Returns the list of clauses that do NOT hold.
+      I1  every route in a pending bucket is the route `_new_nlri` maps its index to (no superseded entry)
+      I2  every `_new_nlri` entry sits in the bucket of its own attributes
+      I3  a pending announce is the route the cache reports for that index (the cache is the last intention)
+      I4  `_new_attribute` knows the attributes of every non-empty bucket
+      I5  a pending withdraw for an index means: not cached, or re-announced and pending again"""
+    bad = []
+    for aidx, per_family in rib._new_attr_af_nlri.items():
+        for fam, routes in per_family.items():
+            for idx, route in routes.items():
+                if rib._new_nlri.get(idx) is not route:
+                    bad.append('I1-superseded-entry-left-in-bucket')
+            if routes and aidx not in rib._new_attribute:
+                bad.append('I4-bucket-without-attributes')
+    for idx, route in rib._new_nlri.items():
+        fam = route.nlri.family().afi_safi()
+        if rib._new_attr_af_nlri.get(route.attributes.index(), {}).get(fam, {}).get(idx) is not route:
+            bad.append('I2-pending-route-not-in-its-bucket')
+        if rib.cache and rib._seen.get(fam, {}).get(idx) is not route:
+            bad.append('I3-pending-route-is-not-the-cached-one')
+    for fam, d in rib._pending_withdraws.items():
+        for nidx, (nlri, _attrs) in d.items():
+            ridx = rib._make_index(nlri)
+            if rib.cache and rib._seen.get(fam, {}).get(ridx) is not None and rib._new_nlri.get(ridx) is None:
+                bad.append('I5-withdraw-pending-but-still-cached')
+    return sorted(set(bad))
+
+
+def plant(rib, peer, nlri, peer_entry, cache_entry, pend_ann, pend_wd):
+    """Inductive-step pre-state: put one NLRI into the RIB's private structures / the peer table.
+    peer_entry / cache_entry: (attributes, nexthop) or None."""
+    fam = nlri.family().afi_safi()
+    if peer_entry is not None:
+        peer.rows.append((nlri.index(), peer_entry[0].index(), peer_entry[1].index()))
+    route = None
+    if cache_entry is not None:
+        route = Route(nlri, cache_entry[0], nexthop=cache_entry[1])
+        rib._seen.setdefault(fam, {})[route.index()] = route
+    if pend_wd:
+        from exabgp.bgp.message.update.attribute.collection import AttributeCollection as _AC
+        rib._pending_withdraws.setdefault(fam, {})[nlri.index()] = (nlri, _AC())
+    if pend_ann:
+        aidx = route.attributes.index()
+        rib._new_nlri[route.index()] = route
+        rib._new_attr_af_nlri.setdefault(aidx, {}).setdefault(fam, {})[route.index()] = route
+        rib._new_attribute[aidx] = route.attributes
+    return route
+
+
+class QueueStuck(Exception):
+    """rib.pending() stays true although generators keep being exhausted"""
+
+
 class Sender:
     """Models Peer._send_route_updates: one live generator at a time, created only when the RIB reports pending
     work, consumed a few messages per reactor iteration; operations may arrive between two messages."""
@@ -269,14 +324,14 @@ class Sender:
     def live(self):
         return self.gen is not None
 
-    def send(self, k=None, limit=200):
+    def send(self, k=None, limit=60):
         """Send up to k messages (all of them when k is None).  Returns the number sent."""
         count = 0
         spins = 0
         while k is None or count < k:
             spins += 1
             if spins > limit:
-                raise AssertionError('the outgoing queue does not drain')
+                raise QueueStuck('the outgoing queue does not drain')
             if self.gen is None:
                 if not self.rib.pending():
                     break
